@@ -32,12 +32,17 @@ import sys
 import textwrap
 import warnings
 
-MAX_REC = 3
+MAX_REC = 2   # the harness' tree data recurses once (templates guard the call with {% if n.c %})
 PEEK_ATTRS = {"length", "revindex", "revindex0", "last", "nextitem"}
 
 
 class Unmodelled(Exception):
     """The generated code has a shape the projection does not cover."""
+
+
+class DeadBranch(Exception):
+    """The branch being projected cannot run with the data the harness uses
+    (e.g. the hand-off to a parent template that a false condition never loads)."""
 
 
 def _has_yield(fn):
@@ -97,11 +102,15 @@ class Scope:
 
 
 class Extractor:
-    def __init__(self, env, templates):
+    def __init__(self, env, templates, data=None):
+        """`data`: the variables the harness renders with; used only to name the template a
+        dynamic `extends` / `include` expression denotes and to decide whether a conditional
+        extends is taken (the structure of a render with dynamic targets depends on them)."""
         from jinja2 import nodes
 
         self.env = env
         self.templates = templates
+        self.data = data or {}
         self.tree = {}
         self.parent = {}
         self.defines = {}
@@ -113,9 +122,24 @@ class Extractor:
             ext = list(jt.find_all(nodes.Extends))
             self.parent[name] = None
             if ext:
-                if len(ext) != 1 or not isinstance(ext[0].template, nodes.Const) or ext[0] not in jt.body:
-                    raise Unmodelled("extends must be a single unconditional constant at top level")
-                self.parent[name] = ext[0].template.value
+                if len(ext) != 1:
+                    raise Unmodelled("more than one extends")
+                e = ext[0]
+                if isinstance(e.template, nodes.Const) and isinstance(e.template.value, str):
+                    target = e.template.value
+                elif isinstance(e.template, nodes.Name) and isinstance(self.data.get(e.template.name), str):
+                    target = self.data[e.template.name]
+                else:
+                    raise Unmodelled("extends target is neither a constant nor a variable of the harness data")
+                if e in jt.body:
+                    self.parent[name] = target
+                else:
+                    # {% if v %}{% extends .. %}{% endif %}: taken iff the harness' value of v is true
+                    conds = [i for i in jt.body if isinstance(i, nodes.If) and e in i.body
+                             and isinstance(i.test, nodes.Name) and i.test.name in self.data and not i.elif_]
+                    if len(conds) != 1:
+                        raise Unmodelled("extends nested in something else than a top-level {% if name %}")
+                    self.parent[name] = target if self.data[conds[0].test.name] else None
             self.defines[name] = [b.name for b in jt.find_all(nodes.Block)]
             self.topfuncs[name] = {f.name: f for f in self.tree[name].body if isinstance(f, ast.AsyncFunctionDef)}
         self.funcs = {}
@@ -224,7 +248,7 @@ class Extractor:
             if v == "parent_template":
                 p = self.parent[sc.tmpl]
                 if p is None:
-                    raise Unmodelled("parent_template without static extends")
+                    raise DeadBranch("no parent template is loaded with the harness data")
                 return self.need_top(sc.ctx, p, "root")
             if v in sc.tmplvars:
                 t = sc.tmplvars[v]
@@ -237,9 +261,13 @@ class Extractor:
         if isinstance(n, ast.Call) and ast.unparse(n.func) in ("environment.get_template",
                                                                "environment.get_or_select_template",
                                                                "environment.select_template"):
-            a = n.args[0]
+            a = _strip_undefined_guard(n.args[0])
             if isinstance(a, ast.Constant) and isinstance(a.value, str):
                 return a.value
+            if isinstance(a, ast.Name):  # a variable of the harness data
+                m = re.match(r"l_\d+_(\w+)$", a.id)
+                if m and isinstance(self.data.get(m.group(1)), str):
+                    return self.data[m.group(1)]
             return None
         if isinstance(n, ast.Name):
             if n.id == "self" and "self" in sc.bound:
@@ -462,8 +490,14 @@ class Extractor:
             if ast.unparse(s.test) == "not self.environment.is_async":
                 return self.body(s.orelse, sc, rec)  # configuration check: the environment under test is async
             pre = self.pts(s.test, sc)
-            a = self.body(s.body, sc, rec)
-            b = self.body(s.orelse, sc, rec)
+            try:
+                a = self.body(s.body, sc, rec)
+            except DeadBranch:
+                a = []
+            try:
+                b = self.body(s.orelse, sc, rec)
+            except DeadBranch:
+                b = []
             if a or b:
                 pre.append({"op": "if", "a": a, "b": b})
             return pre
